@@ -30,8 +30,10 @@ CFG = dict(
                  "6": "the caller's result is not the reply its handler produced",
                  "7": "wire: request ids not pairwise distinct, a request envelope whose body is not a caller's message, or not exactly one "
                       "response per request id carrying f(body of that request) without error status or reset"},
-    rule="real goat.ClientConn - in-memory FIFO wires - real goat.Server inside synctest bubbles; reply = fixed mixing function of the request "
-         "bytes; payload sizes {0,1,17,1023,1024,4096,65536} of seeded random bytes. (A) lock-step, EVERY interleaving of the 2k wire "
+    rule="real goat.ClientConn - in-memory FIFO wires - real goat.Server inside synctest bubbles; two registered services x three unary "
+         "methods, each with its own handler (reply = method-specific fixed mixing function of the request bytes: a swapped pairing or a "
+         "dispatch to another method's handler is visible); every caller reuses ONE request object and ONE pre-populated reply object "
+         "for all its calls (an empty reply must overwrite it); payload sizes {0,1,17,1023,1024,4096,65536} of seeded random bytes. (A) lock-step, EVERY interleaving of the 2k wire "
          "deliveries and k handler releases for k <= 3 callers (thorough 4) on serialising and by-reference wires, k <= 2 (thorough 3) "
          "through the real Proxy and the real Demux; (B) seeded random lock-step schedules, 1..8 callers x 1..3 calls, three topologies; "
          "(C) free-running (no gating, seeded yields at the verif hooks): 64 callers x 200 calls at GOMAXPROCS 1/4/16, 8 x 100 through "
